@@ -202,7 +202,7 @@ func (fv *FV) touchEverything(st *State, what string) {
 // havocLoopHeaps havocs the given heaps at a loop header but keeps, for a
 // function with a modifies clause, everything outside the frame that existed
 // at function entry.
-func (fv *FV) havocLoopHeaps(st *State, keys []string) {
+func (fv *FV) havocLoopHeaps(st *State, keys []string, blocks map[*ssa.BasicBlock]bool) {
 	sort.Strings(keys)
 	for _, k := range keys {
 		old, had := st.heaps[k]
@@ -210,6 +210,12 @@ func (fv *FV) havocLoopHeaps(st *State, keys []string) {
 			old = fv.heap(st, k)
 		}
 		n := fv.havocHeap(st, k)
+		// locals that stay private to straight-line addressing keep their content
+		for _, a := range st.fr.allocs {
+			if a.sort == k && privateInLoop(a.instr, blocks) {
+				st.assume(fmt.Sprintf("(= (select %s %s) (select %s %s))", n, a.ref, old, a.ref))
+			}
+		}
 		fs := fv.frame
 		if fs != nil && !fs.everything && !(fs.allHeaps && !fs.except[k]) && !fs.heaps[k] {
 			var ex []string
